@@ -157,7 +157,13 @@ def _impl_init():
 
 def _impl_worker(c):
     try:
-        return common.run_impl_case(c, timeout=c.get("timeout", 30.0))
+        r = common.run_impl_case(c, timeout=c.get("timeout", 30.0))
+        # records travel to the main process: an implementation gone wrong may emit millions of lines
+        for k in ("out", "prints", "warnings"):
+            if isinstance(r.get(k), list) and len(r[k]) > 60000:
+                r[k] = r[k][:60000]
+                r["truncated"] = True
+        return r
     except MemoryError:
         return {"status": "CRASH", "err": "MemoryError", "site": "harness-worker", "msg": "memory limit of the worker reached"}
 
